@@ -53,7 +53,7 @@ JudgeAppend(r) ==
   ELSE ""
 
 Judge(r) == IF r.kind = "append" THEN JudgeAppend(r) ELSE JudgeRead(r)
-ASSUME TreeWellFormed /\ LayoutWellFormed
+ASSUME TreeWellFormed /\ LayoutWellFormed /\ OrderRelationsCovered
 Init == /\ i \in 1..Len(Recs)
         /\ why = Judge(Recs[i])
         /\ ok = (why = "")
